@@ -2,9 +2,17 @@
    the Go code's float64 rank (RankUnbounded), composed with the payload theorems. *)
 From Coq Require Import String.
 From Coq Require Import List ZArith Lia.
-From GS Require Import Base.Bytes Model.GoPartial Model.Histogram Model.Stats Model.Rank
-  Model.FlushPartial Model.PayloadPartial
-  Proofs.FlushSafety Proofs.FlushSafetyLTS Proofs.FlushSafetyPayload Proofs.RankUnbounded.
+From GS Require Import Base.Bytes.
+From GS Require Import Model.GoPartial.
+From GS Require Import Model.Histogram.
+From GS Require Import Model.Stats.
+From GS Require Import Model.Rank.
+From GS Require Import Model.FlushPartial.
+From GS Require Import Model.PayloadPartial.
+From GS Require Import Proofs.FlushSafety.
+From GS Require Import Proofs.FlushSafetyLTS.
+From GS Require Import Proofs.FlushSafetyPayload.
+From GS Require Import Proofs.RankUnbounded.
 Import ListNotations.
 Local Open Scope Z_scope.
 
